@@ -179,6 +179,23 @@ def polygon(sz, cmode='any', meta=True, max_vertices=12, simple_only=False,
         st.one_of(st.none(), st.none(), centers('aligned'))).map(mk)
 
 
+def dense_polygon(meta=True):
+    """A finely sampled outline (a digitised curve): 1200-1500 vertices on a
+    slightly wavy circle of radius 0.05-0.3 px, so that consecutive edges are
+    almost - never exactly - collinear."""
+    def mk(t):
+        d, n, r, cx, cy, k, amp = t
+        th = [2 * math.pi * i / n for i in range(n)]
+        rad = [r * (1 + amp * math.sin(k * a)) for a in th]
+        return dict(d, vertices=[[cx + q * math.cos(a) for q, a in zip(rad, th)],
+                                 [cy + q * math.sin(a) for q, a in zip(rad, th)]],
+                    shape_kind='dense', build='direct')
+    return st.tuples(_with_common({'cls': st.just('PolygonPixelRegion')}, meta),
+                     st.integers(1200, 1500), st.floats(0.05, 0.3),
+                     coord1('near'), coord1('near'), st.integers(2, 5),
+                     st.floats(0.0, 0.2)).map(mk)
+
+
 def grid_polygon(meta=True, max_vertices=8):
     """Polygons with vertices on the 1/2-pixel lattice (edges through pixel
     centres and along pixel edges)."""
